@@ -327,7 +327,7 @@ static struct shim_map *rd_map(void) {
 	return m;
 }
 static void serve(void) {
-	static unsigned char frame[8192], key[512], val[4096];
+	static unsigned char frame[65536], key[512], val[4096];
 	for (;;) {
 		int c = getchar();
 		if (c == EOF || c == 'Q') return;
